@@ -41,6 +41,7 @@ type vC11Run struct {
 	rep       status.Reporter
 	idx       map[*componentstatus.InstanceID]int
 	seen      [][][2]int // per watcher extension: every (instance, status) it was notified of, in order
+	deliv     [][3]int   // every ComponentStatusChanged call in order: (watcher, source instance, status)
 }
 
 type vC11Ext struct {
@@ -58,6 +59,7 @@ type vC11Watcher struct{ *vC11Ext }
 
 func (w vC11Watcher) ComponentStatusChanged(source *componentstatus.InstanceID, ev *componentstatus.Event) {
 	w.run.seen[w.i] = append(w.run.seen[w.i], [2]int{w.run.idx[source], int(ev.Status())})
+	w.run.deliv = append(w.run.deliv, [3]int{w.i, w.run.idx[source], int(ev.Status())})
 }
 
 func (n *vC11Ext) report(s int) {
@@ -218,6 +220,19 @@ func TestVerifC11Ext(t *testing.T) {
 			}
 		}
 		out.Case(len(run.got) > 0, term)
+		// the watcher path as a correspondence case of its own (kind 5): watchers in start order, then the same script
+		var wsc []string
+		for w := 0; w < nn; w++ {
+			if watcher[w] {
+				wsc = append(wsc, vPair(vNat(w), vZ(300)))
+			}
+		}
+		dl := make([]string, len(run.deliv))
+		for i, d := range run.deliv {
+			dl[i] = vPair(vNat(d[0]*100+d[1]), vZ(int64(d[2])))
+		}
+		out.Case(len(run.deliv) > 0, vPair("5", vPair(vList(append(wsc, sc...)), vList(dl))))
+		out.Stat(fmt.Sprintf("watchers_per_run_%d", len(wsc)), 1)
 		out.Stat("auto_ok_delivered", autoOK)
 		out.Stat("auto_ok_suppressed", noAutoOK)
 		if startErr != nil {
